@@ -21,7 +21,7 @@ F = "strax/context.py"
 _TMP_ROOT = tempfile.mkdtemp(prefix="verif_c01_")
 atexit.register(lambda: shutil.rmtree(_TMP_ROOT, ignore_errors=True))
 LAYOUT = {}
-TARGETS = ("ta", "tb", "tm", "mo1", "mo2", "ow", "ex")
+TARGETS = ("ta", "tb", "tm", "mo1", "mo2", "ow", "ex", "fx", "mm", "two")
 _CLS = {}
 
 
@@ -114,7 +114,52 @@ def _classes(rechunk):
                                                          compute=ow_compute, get_window_size=lambda self: 2, __version__="0", **small))
     EX = type("P_ex", (strax.ExhaustPlugin,), dict(provides="ex", depends_on=("ta",), data_kind="kex", dtype=base + [(("field tot", "tot"), i64)],
                                                    compute=ex_compute, __version__="0", **small))
-    _CLS[rechunk] = [Src, A, A2, B, M, MO, OW, EX]
+    class Src2(strax.Plugin):
+        """an independent source with its own rows and its own chunking"""
+        provides = "src2"
+        depends_on = ()
+        data_kind = "kz"
+        dtype = base + [(("value z", "w"), np.int64)]
+        rechunk_on_save = False
+        __version__ = "0"
+
+        def source_finished(self):
+            return True
+
+        def is_ready(self, chunk_i):
+            return chunk_i < len(LAYOUT["cuts2"]) - 1
+
+        def compute(self, chunk_i):
+            a, b = LAYOUT["cuts2"][chunk_i], LAYOUT["cuts2"][chunk_i + 1]
+            rows = [r for r in LAYOUT["rows2"] if a <= r[0] and r[1] <= b and a != b]
+            d = np.zeros(len(rows), self.dtype)
+            for j, (t, e) in enumerate(rows):
+                d[j]["time"], d[j]["endtime"], d[j]["w"] = t, e, 7 * t + e
+            return self.chunk(start=a, end=b, data=d)
+
+    def fx_compute(self, kex, ka):
+        r = np.zeros(len(ka), self.dtype)
+        r["time"], r["endtime"], r["fxv"] = ka["time"], ka["endtime"], ka["x"] + kex["tot"].sum()
+        return r
+
+    def mm_compute(self, kmo1, kmo2):
+        r = np.zeros(len(kmo1), self.dtype)
+        r["time"], r["endtime"] = kmo1["time"], kmo1["endtime"]
+        for j in range(len(kmo1)):
+            r[j]["mmv"] = kmo1["p"][j] + np.sum(kmo2["q"][(kmo2["time"] == kmo1["time"][j])])
+        return r
+
+    def two_compute(self, ka, kz):
+        r = np.zeros(len(ka), self.dtype)
+        r["time"], r["endtime"] = ka["time"], ka["endtime"]
+        for j in range(len(ka)):
+            r[j]["tw"] = ka["x"][j] + np.sum(kz["w"][(kz["endtime"] > ka["time"][j]) & (kz["time"] < ka["endtime"][j])])
+        return r
+
+    FX = mk("fx", ("ex", "ta"), "kfx", fx_compute, [(("field fxv", "fxv"), i64)])
+    MM = mk("mm", ("mo1", "mo2"), "kmm", mm_compute, [(("field mmv", "mmv"), i64)])
+    TWO = mk("two", ("ta", "src2"), "ktwo", two_compute, [(("field tw", "tw"), i64)])
+    _CLS[rechunk] = [Src, Src2, A, A2, B, M, MO, OW, EX, FX, MM, TWO]
     return _CLS[rechunk]
 
 
@@ -136,9 +181,16 @@ def _whole(rows, target):
         return [(t, e, sum(1 for (t2, e2) in rows if e2 > t - 2 and t2 < e + 2)) for (t, e) in rows]
     if target == "ex":
         return [(rows[0][0], rows[-1][1], sum(x.values()))] if rows else []
+    if target == "fx":
+        return [(t, e, x[(t, e)] + sum(x.values())) for (t, e) in rows]
+    if target == "mm":
+        return [(t, e, x[(t, e)] + 1 + (x[(t, e)] if x[(t, e)] % 4 == 0 else 0)) for (t, e) in rows]
+    if target == "two":
+        rows2 = [tuple(r) for r in LAYOUT["rows2"]]
+        return [(t, e, x[(t, e)] + sum(7 * t2 + e2 for (t2, e2) in rows2 if e2 > t and t2 < e)) for (t, e) in rows]
 
 
-FIELD = dict(ta="x", tb="z", tm="s", mo1="p", mo2="q", ow="n", ex="tot")
+FIELD = dict(ta="x", tb="z", tm="s", mo1="p", mo2="q", ow="n", ex="tot", fx="fxv", mm="mmv", two="tw")
 
 
 def _native(i):
@@ -154,10 +206,12 @@ def _native_(i):
     warnings.simplefilter("ignore")
     LAYOUT["rows"] = [tuple(r) for r in i["rows"]]
     LAYOUT["cuts"] = list(i["cuts"])
+    LAYOUT["rows2"] = [tuple(r) for r in i.get("rows2", [])]
+    LAYOUT["cuts2"] = list(i.get("cuts2", [i["cuts"][0], i["cuts"][-1]]))
     tmp = tempfile.mkdtemp(dir=_TMP_ROOT)
     try:
         st = strax.Context(storage=[strax.DataDirectory(tmp)], register=_classes(i["rechunk"]),
-                           allow_lazy=i["lazy"], max_messages=i["max_messages"], timeout=60)
+                           allow_lazy=i["lazy"], max_messages=i["max_messages"], timeout=15)
         st.set_context_config({"use_per_run_defaults": False})
         st.log.setLevel(logging.CRITICAL)
         kw = dict(progress_bar=False, processor=i["processor"], max_workers=i["workers"])
@@ -177,6 +231,7 @@ def _ens(S, a, r):
     if r["error"] is not None:
         return [("a law-abiding run is processed without error: " + r["error"], False)]
     rows = [tuple(x) for x in a.rows]
+    LAYOUT["rows2"] = [tuple(x) for x in getattr(a, "rows2", [])] if a._has("rows2") else []
     want = _whole(rows, a.target)
     sp = r["spans"]
     return [("the rows are exactly those of the whole-run computation", [tuple(x) for x in r["rows"]] == want),
@@ -185,13 +240,17 @@ def _ens(S, a, r):
             ("every row lies wholly inside the chunk that carries it", r["inside"])]
 
 
+# rows / cuts of the independent second source: long rows that straddle the first source's chunk boundaries
+SECOND = [([(0, 5), (5, 9)], [0, 12]), ([(1, 4), (6, 11)], [0, 5, 12]), ([], [0, 12]), ([(0, 12)], [0, 12]), ([(2, 3), (3, 10)], [0, 2, 11, 12])]
+
+
 def _gen(rng, tier):
     thorough = tier == "thorough"
     T = 12
     rowsets = [[(0, 1), (2, 3), (5, 6), (9, 11)], [(1, 2), (2, 4), (4, 5), (7, 8), (8, 9), (10, 12)], [], [(3, 6)]]
     settings = [("single_thread", 1, True, 4), ("threaded_mailbox", 1, True, 4), ("threaded_mailbox", 2, False, 4),
                 ("threaded_mailbox", 1, True, 2), ("threaded_mailbox", 1, False, 3)]
-    stored_sets = [(), ("ta",), ("src", "ta2"), ("ta", "ta2", "tb")]
+    stored_sets = [(), ("ta",), ("src", "ta2"), ("ta", "ta2", "tb"), ("ex",), ("mo1", "mo2")]
     for rows in rowsets[: (4 if thorough else 2)]:
         inner = [t for t in range(1, T) if not any(x < t < y for x, y in rows)]
         cutsets = [[0, T]]
@@ -203,12 +262,17 @@ def _gen(rng, tier):
         j = rng.randrange(1, len(z))
         cutsets.append(z[:j + 1] + z[j:])           # with a zero-duration chunk
         for cuts in cutsets:
-            for target in (TARGETS if thorough else rng.sample(TARGETS, 4)):
+            for target in (TARGETS if thorough else rng.sample(TARGETS, 5)):
                 for (proc, workers, lazy, mm) in (settings if thorough else rng.sample(settings, 2)):
                     for stored in (stored_sets if thorough else rng.sample(stored_sets, 2)):
                         for rechunk in ((False, True) if thorough else (rng.random() < 0.5,)):
+                            rows2, cuts2 = rng.choice(SECOND)
+                            if target == "fx" and proc == "threaded_mailbox":
+                                # the property's premise "capacity above the largest plugin lag": fx waits for the exhaust plugin,
+                                # which lags by the whole run, so the mailbox of ta must be able to hold every chunk
+                                mm = max(mm, len(cuts) + 2)
                             yield dict(rows=[list(x) for x in rows], cuts=cuts, target=target, processor=proc, workers=workers, lazy=lazy,
-                                       max_messages=mm, stored=list(stored), rechunk=rechunk)
+                                       max_messages=mm, stored=list(stored), rechunk=rechunk, rows2=[list(x) for x in rows2], cuts2=cuts2)
 
 
 pipeline = Contract(
@@ -216,7 +280,9 @@ pipeline = Contract(
                                                          max_messages="int", stored="V", rechunk="bool"),
     ensures=_ens, raises={},
     harness=Harness(native=_native, gen=_gen,
-                    scope="graph src -> {ta, ta2 (same kind, merged by tm), tb (filter), mo1/mo2 (multi-output), ow (overlap window 2), ex (exhaust)} "
+                    scope="graph src -> {ta, ta2 (same kind, merged by tm), tb (filter), mo1/mo2 (multi-output), ow (overlap window 2), ex (exhaust), fx (reads ex "
+                          "and ta: two readers of ta, one running ahead), mm (needs both outputs of the multi-output plugin)} and two (ta + an "
+                          "independent second source with long rows and its own chunking) "
                           "on the grid 0..12; 2 (thorough: 4) row sets x source chunkings with 0/1/2/4 inner cuts and a zero-duration chunk x "
                           "targets x {single_thread, threaded_mailbox with 1..2 workers, lazy / eager, max_messages 2..4} x stored subsets "
                           "{none, ta, src+ta2, ta+ta2+tb} x rechunk_on_save with a tiny target size; real Context with a DataDirectory. Loop and "
